@@ -6,6 +6,8 @@ from fractions import Fraction as Fr
 import numpy as np
 
 from .. import engine, refmodel as rm
+from .. import histories
+from ..histories import t_callhist        # worker task of the history harness (mc/histories.py)
 
 PID = 'C11'
 MOD = 'mc.props.c11'
@@ -288,6 +290,8 @@ def chk_coords(case, acc, seed):
 DISPATCH = {'index': chk_index, 'values': chk_values, 'ortho': chk_ortho, 'coords': chk_coords}
 
 
+DISPATCH['histop'] = histories.chk_case
+
 def t_values(arg, acc):
     for j in range(arg['lo'], arg['hi']):
         acc.transitions += 1
@@ -328,6 +332,7 @@ def run(tier, seed, acc, procs=None):
         tasks.append(('t_coords', {'seed': seed, 'shape': s}))
     acc.states += 1
     acc.transitions += len(tasks)
+    tasks += histories.tasks_for(PID, seed)        # pairwise call histories over the operations this property is anchored in
     engine.run_parallel(MOD, tasks, acc, procs)
     return {
         'rule': f'index map j = 1..{jidx} against an independent generator of the Noll order (bijection onto (n,m)); mode values j <= '
@@ -342,5 +347,8 @@ def run(tier, seed, acc, procs=None):
 
 
 def replay(case, acc):
+    if case.get('kind') == 'histop':
+        import os as _os
+        return histories.chk_case(case, acc, int(_os.environ.get('VERIF_SEED', '0') or 0))
     seed = int(os.environ.get('VERIF_SEED', '0') or 0)
     DISPATCH[case['kind']](case, acc, seed)
